@@ -329,6 +329,17 @@ theorem embed_graph_smask :
 
 example : decide (Gen.embedGraph.length ≥ 200) = true := by decide +kernel
 
+/-- `Props/C13.lean::embed_decode_iff_app14` on the table regenerated from the real `RasterImage` (every image Pillow can write × options ×
+rotation): a row carries `/Decode` exactly when it is a JPEG-path CMYK image whose file has the APP14 marker. -/
+theorem embed_graph_decode :
+    Gen.embedGraph.all (fun e => match e.2.2 with
+      | none => true
+      | some (mode, jpeg, _, _, _, _, _, _, decode) => decode == (jpeg && decide (mode = .CMYK) && e.1.app14)) = true := by
+  decide +kernel
+
+example : (Gen.embedGraph.filter (fun e => match e.2.2 with
+    | some (_, _, _, _, _, _, _, _, decode) => decode && e.1.rotated | none => false)).length ≥ 1 := by decide +kernel
+
 end EmbedGraph
 
 
